@@ -91,6 +91,17 @@ def check_effect_confined(w, fw, e, rep, cfg, rule, prop_prefix):
             sh = shape(c)
             if lf_c[0] == "Dead":
                 continue
+            through_link = ("link_to" in cfg and (e.kind, role, sh) in (
+                ("Copy", "dst", "Content(Entry)"), ("Reflink", "dst", "Content(Entry)"), ("Open", "path", "Content(Entry)"),
+                ("WriteData", "handle", "Handle(Content(Entry))"), ("HandleMut", "handle", "Handle(Content(Entry))"))
+                and (e.kind != "Open" or e.mutating))
+            if through_link:
+                ok_all = False
+                rep.violation("%s:%s:%s:%s:through-link" % (prop_prefix, fn_key(lf), e.kind, role),
+                              "`%s` performs %s *through* a content address: with link_to a content address can be a symlink to a file of the "
+                              "caller's, so the bytes land outside the cache (or in a file recreated at a deleted target)" % (short(lf.path), e.kind),
+                              loc=e.loc(), config=cfg, rule=rule)
+                continue
             if allowed is None or sh not in allowed:
                 ok_all = False
                 rep.violation("%s:%s:%s:%s:%s" % (prop_prefix, fn_key(lf), e.kind, role, sh),
